@@ -18,8 +18,13 @@ def segment(fsz, t, pad=b""):
         return [bytes([n]) + t + pad]
     if n <= fsz - 2:
         return [bytes([0, n]) + t + pad]
-    frames = [bytes([0x10 | (n >> 8), n & 0xFF]) + t[:fsz - 2]]
-    rest = t[fsz - 2:]
+    if n <= 4095:
+        frames = [bytes([0x10 | (n >> 8), n & 0xFF]) + t[:fsz - 2]]
+        rest = t[fsz - 2:]
+    else:
+        # ISO 15765-2:2016: a zero 12 bit length, then the length as 32 bit number
+        frames = [bytes([0x10, 0]) + n.to_bytes(4, "big") + t[:fsz - 6]]
+        rest = t[fsz - 6:]
     k = 1
     while True:
         if len(rest) <= fsz - 1:
@@ -66,7 +71,11 @@ class Provenance:
                 else:
                     exp = bytes(d[1:1 + lo])
             elif ft == 1 and len(d) >= 2:
-                c = self.cur[rx] = dict(n=(lo << 8) | d[1], data=bytes(d[2:]), last=0, emitted=False)
+                n_, data_ = (lo << 8) | d[1], bytes(d[2:])
+                if n_ == 0 and len(d) >= 6:
+                    # the announced length is the 32 bit number behind a zero 12 bit length (ISO 15765-2:2016)
+                    n_, data_ = int.from_bytes(d[2:6], "big"), bytes(d[6:])
+                c = self.cur[rx] = dict(n=n_, data=data_, last=0, emitted=False)
                 if len(c["data"]) >= c["n"]:
                     exp = c["data"][:c["n"]]  # a first frame which already carries everything
             elif ft == 2:
